@@ -1,7 +1,7 @@
 """C20 -- Decompression is total: any bit string gives a buffer or the rule-ID error."""
 from core import rng_for, mk, bits_of, L, R, randbits, Buffer
 from schc_run import Batch, obs_bits, with_timeout, parse_model_bits
-from schc_util import n_rule, n_pdesc, rules_tokens, tb, ref_compress
+from schc_util import n_rule, n_pdesc, rules_tokens, tb, ref_compress, gen_rule, KINDS
 from gens import gen_parsed, gen_ruleset, b2s
 from microschc.rfc8724extras import Context
 from microschc.manager import ContextManager
@@ -63,6 +63,34 @@ def run(rep, tier, seed):
             one(b, cm, nrs, randbits(rnd, rnd.randint(0, 2000)), rnd.choice([L, R]), 'random')
             one(b, cm, nrs, rnd.choice(nrs)['id'] + randbits(rnd, rnd.randint(0, 300)), rnd.choice([L, R]), 'id+random')
         one(b, cm, nrs, '', L, 'empty')
+        # the rule set is re-provisioned in place (same rule objects, other well-formed descriptors) and the same manager goes on
+        if i % 2 == 0:
+            _, _, _, pd2 = gen_parsed(rnd, stack)
+            pd2.direction = DI.UP
+            for k, r in enumerate(rules):
+                if r.field_descriptors and rnd.random() < 0.7:
+                    r.field_descriptors[:] = gen_rule(rnd, pd2, nrs[k]['id'], kinds=KINDS).field_descriptors
+            nrs = [n_rule(r) for r in rules]
+            npd2 = n_pdesc(pd2)
+            for v in [x for x in (ref_compress(npd2, nr) for nr in nrs) if x is not None][:3]:
+                one(b, cm, nrs, v, rnd.choice([L, R]), 're-provisioned:valid')
+                one(b, cm, nrs, v[:rnd.randrange(len(v) + 1)], rnd.choice([L, R]), 're-provisioned:truncated')
+            for _ in range(6):
+                one(b, cm, nrs, rnd.choice(nrs)['id'] + randbits(rnd, rnd.randint(0, 600)), rnd.choice([L, R]), 're-provisioned:id+random')
+    # SCHC packets whose regenerated checksums land on corner values (0, 0xFFFF and neighbours: carries folded twice)
+    from p_c09 import special_packets
+    from schc_run import parser_for
+    from schc_util import gen_rfd, COMPUTABLE
+    from microschc.rfc8724 import RuleDescriptor
+    for stack, pkt in special_packets(rnd):
+        pd = parser_for(stack).parse(Buffer(pkt, len(pkt) * 8))
+        fds = [gen_rfd(rnd, f, 'comp' if str(getattr(f.id, 'value', f.id)) in COMPUTABLE else rnd.choice(['vs', 'ns', 'lsb']), DI.BIDIRECTIONAL) for f in pd.fields]
+        rule = RuleDescriptor(id=mk(randbits(rnd, rnd.randint(1, 8))), field_descriptors=fds)
+        nr = n_rule(rule)
+        v = ref_compress(n_pdesc(pd), nr)
+        if v is not None:
+            cm = ContextManager(Context(id='c', description='', interface_id='i', parser_id=stack, ruleset=[rule]))
+            one(b, cm, [nr], v, rnd.choice([L, R]), 'checksum-corner')
     b.run()
 
 
